@@ -126,6 +126,8 @@ struct Case {
 }
 
 const HEX: &str = "1111111111111111111111111111111111111111";
+/// a second object id, one that no advertised ref points to (HEX is the target of refs/heads/b)
+const HEX2: &str = "2222222222222222222222222222222222222222";
 const SPECS: &[&str] = &[
     "refs/heads/*:refs/remotes/o/*",
     "refs/heads/a*a:refs/remotes/x/a*a",
@@ -150,23 +152,60 @@ const SPECS: &[&str] = &[
     "b:remotes2/x",
     "a:tags",
     "a:heads",
+    // object-id sources: two different ids (HEX = tip of refs/heads/b, HEX2 = not advertised) without / with equal destinations
+    HEX2,
+    "1111111111111111111111111111111111111111:refs/heads/x",
+    "2222222222222222222222222222222222222222:refs/heads/x",
+    "1111111111111111111111111111111111111111:x",
+    "2222222222222222222222222222222222222222:x",
+    "+1111111111111111111111111111111111111111:refs/heads/x",
+    "+2222222222222222222222222222222222222222:refs/heads/x",
 ];
 const NAMES: &[&str] = &["HEAD", "refs/heads/a", "refs/heads/aa", "refs/heads/aba", "refs/heads/ab", "refs/heads/b", "refs/heads/abba", "refs/tags/t"];
 
-fn oid_for(i: usize) -> gix_hash::ObjectId {
+fn oid_for(i: usize, name: &str) -> gix_hash::ObjectId {
+    if name == "refs/heads/b" {
+        return gix_hash::ObjectId::from_hex(HEX.as_bytes()).expect("valid hex");
+    }
     let mut b = [0u8; 20];
     b[0] = 0xa0;
     b[19] = i as u8 + 1;
     gix_hash::ObjectId::from(b)
 }
 
-fn gitoxide(specs: &[String], names: &[&str]) -> Result<Result<Vec<(Src, Option<String>)>, String>, String> {
+/// what `Outcome::validated()` says: Ok(number of mappings kept) or Err(set of destinations with conflicting sources)
+type Validated = Result<usize, BTreeSet<String>>;
+
+/// git dies with "Cannot fetch both X and Y to Z" when two different sources map to one destination (ref_remove_duplicates)
+fn conflicts_of(want: &Map) -> BTreeSet<String> {
+    let mut out = BTreeSet::new();
+    for (s, d) in want {
+        if let Some(d) = d {
+            if want.iter().any(|(s2, d2)| d2.as_deref() == Some(d.as_str()) && s2 != s) {
+                out.insert(d.clone());
+            }
+        }
+    }
+    out
+}
+fn check_validated(want: &Map, got: &Validated) -> Result<(), String> {
+    let conflicts = conflicts_of(want);
+    match got {
+        Err(dests) if *dests == conflicts && !conflicts.is_empty() => Ok(()),
+        Err(dests) => Err(format!("validated() reports conflicts for {dests:?}, expected conflicts for {conflicts:?}")),
+        Ok(_) if !conflicts.is_empty() => Err(format!("validated() accepted mappings with conflicting destinations {conflicts:?}")),
+        Ok(n) if *n == want.len() => Ok(()),
+        Ok(n) => Err(format!("validated() kept {n} of {} mappings although all destinations are full ref names", want.len())),
+    }
+}
+
+fn gitoxide(specs: &[String], names: &[&str]) -> Result<Result<(Vec<(Src, Option<String>)>, Validated), String>, String> {
     let parsed: Result<Vec<_>, _> = specs.iter().map(|s| gix_refspec::parse(s.as_bytes().as_bstr(), Operation::Fetch)).collect();
     let parsed = match parsed {
         Ok(p) => p,
         Err(e) => return Ok(Err(e.to_string())),
     };
-    let ids: Vec<_> = (0..names.len()).map(oid_for).collect();
+    let ids: Vec<_> = names.iter().enumerate().map(|(i, n)| oid_for(i, n)).collect();
     let items: Vec<Item<'_>> = names.iter().zip(&ids).map(|(n, id)| Item { full_ref_name: n.as_bytes().as_bstr(), target: id, object: None }).collect();
     let group = MatchGroup::from_fetch_specs(parsed.iter().copied());
     let out = group.match_remotes(items.iter().copied());
@@ -186,7 +225,17 @@ fn gitoxide(specs: &[String], names: &[&str]) -> Result<Result<Vec<(Src, Option<
         }
         v.push((src, m.rhs.as_ref().map(|r| r.to_string())));
     }
-    Ok(Ok(v))
+    let validated = match out.validated() {
+        Ok((outcome, _fixes)) => Ok(outcome.mappings.len()),
+        Err(err) => Err(err
+            .issues
+            .iter()
+            .map(|i| match i {
+                gix_refspec::match_group::validate::Issue::Conflict { destination_full_ref_name, .. } => destination_full_ref_name.to_string(),
+            })
+            .collect()),
+    };
+    Ok(Ok((v, validated)))
 }
 
 fn eval(c: &Case) -> Verdict {
@@ -196,6 +245,7 @@ fn eval(c: &Case) -> Verdict {
         Ok(Err(e)) => return bad("spec-refused", format!("valid fetch refspec refused: {e}")),
         Ok(Ok(v)) => v,
     };
+    let (got, validated) = got;
     let want = git_rules(&c.specs, &names);
     let got_set: Map = got.iter().cloned().collect();
     if got_set.len() != got.len() {
@@ -205,6 +255,9 @@ fn eval(c: &Case) -> Verdict {
         let extra: Vec<_> = got_set.difference(&want).collect();
         let missing: Vec<_> = want.difference(&got_set).collect();
         return bad("mappings", format!("gitoxide has extra {extra:?}, lacks {missing:?}"));
+    }
+    if let Err(m) = check_validated(&want, &validated) {
+        return bad("validated", m);
     }
     let globs = c.specs.iter().filter(|s| s.contains('*')).count();
     let overlap = c.specs.iter().any(|s| {
@@ -219,7 +272,15 @@ fn eval(c: &Case) -> Verdict {
             want.len().min(4),
             if globs > 0 { "glob" } else { "plain" },
             if overlap { "-overlap" } else { "" },
-            if c.specs.iter().any(|s| s.starts_with('^')) { "-neg" } else { "" }
+            if !conflicts_of(&want).is_empty() {
+                "-conflict"
+            } else if want.iter().filter(|(s, _)| matches!(s, Src::Oid(_))).count() > 1 {
+                "-oids"
+            } else if c.specs.iter().any(|s| s.starts_with('^')) {
+                "-neg"
+            } else {
+                ""
+            }
         ))
     }
 }
@@ -288,8 +349,14 @@ pub fn run(run: &'static Run) {
         }
     }
     let pinned = ids.iter().find(|(n, _)| n == "refs/heads/b").map(|(_, i)| i.clone()).unwrap_or_default();
+    // the root commit: reachable, but no ref points at it (needs uploadpack.allowAnySHA1InWant on the served repository)
+    let unadvertised = vkit::git::git_text(remote.path(), &["rev-list", "--max-parents=0", "refs/heads/a"]);
+    if unadvertised.len() != 40 || ids.iter().any(|(_, i)| *i == unadvertised) {
+        vkit::machinery!("fixture: root commit {unadvertised:?} should be a full id that is not a ref target");
+    }
     let ids = &ids;
     let pinned = &pinned;
+    let unadvertised = &unadvertised;
     let remote_path = remote.path().to_path_buf();
     run.sub_with(
         "git-fetch",
@@ -302,10 +369,12 @@ pub fn run(run: &'static Run) {
                 let _ = small;
                 let pos = |x: &str| SPECS.iter().position(|y| *y == x).unwrap_or(0);
                 // pairs: unordered (git's result does not depend on the order of the refspecs on the command line)
-                if s.len() == 2 && (quick || pos(s[0]) > pos(s[1])) {
+                // quick: of the pairs only those of two object-id specs
+                let both_oid = s.iter().all(|x| is_hex40(split(x).src));
+                if s.len() == 2 && (pos(s[0]) > pos(s[1]) || (quick && !both_oid)) {
                     return;
                 }
-                emit(GitCase { specs: s.iter().map(|s| s.replace(HEX, pinned)).collect() })
+                emit(GitCase { specs: s.iter().map(|s| s.replace(HEX, pinned).replace(HEX2, unadvertised)).collect() })
             });
         },
         |c: &GitCase| -> Verdict {
@@ -317,18 +386,25 @@ pub fn run(run: &'static Run) {
                 Src::Name(n) => ids.iter().find(|(m, _)| m == n).map(|(_, i)| i.clone()).unwrap_or_default(),
             };
             let mut want_refs: BTreeSet<(String, String)> = BTreeSet::new();
-            let mut conflict = false;
+            let conflict = !conflicts_of(&want).is_empty();
             for (s, d) in &want {
                 if let Some(d) = d {
-                    if want.iter().any(|(s2, d2)| d2.as_deref() == Some(d.as_str()) && s2 != s) {
-                        conflict = true;
-                    }
                     want_refs.insert((d.clone(), id_of(s)));
                 }
             }
+            // everything that is fetched ends up in FETCH_HEAD, with or without destination
+            let want_fetched: BTreeSet<String> = want.iter().map(|(s, _)| id_of(s)).collect();
             // the same through gitoxide
             let gix = match gitoxide(&c.specs, &names) {
-                Ok(Ok(v)) => v.into_iter().collect::<Map>(),
+                Ok(Ok((v, validated))) => {
+                    if let Err(m) = check_validated(&want, &validated) {
+                        return bad("validated", m);
+                    }
+                    if v.len() != want.len() {
+                        return bad("mappings", format!("gitoxide computes {} mappings {v:?}, git's rules give {} distinct (source, destination) pairs {want:?}", v.len(), want.len()));
+                    }
+                    v.into_iter().collect::<Map>()
+                }
                 Ok(Err(e)) => return bad("spec-refused", e),
                 Err(e) => return bad("mapping-index", e),
             };
@@ -351,8 +427,16 @@ pub fn run(run: &'static Run) {
             if git_refs != want_refs {
                 return bad("git-oracle", format!("transcription of git's rules disagrees with git: git created {git_refs:?}, transcription says {want_refs:?}"));
             }
+            let fetch_head = std::fs::read_to_string(local.path().join("FETCH_HEAD")).unwrap_or_default();
+            let git_fetched: BTreeSet<String> = fetch_head.lines().filter_map(|l| l.split('\t').next()).map(str::to_string).collect();
+            if git_fetched != want_fetched {
+                return bad("git-oracle", format!("transcription of git's rules disagrees with git: FETCH_HEAD lists {git_fetched:?}, transcription says {want_fetched:?}"));
+            }
             if gix != want {
                 return bad("mappings", format!("gitoxide {gix:?} != git {want:?}"));
+            }
+            if want.iter().filter(|(s, _)| matches!(s, Src::Oid(_))).count() > 1 {
+                return ok(format!("git-oids{}", want_fetched.len().min(4)));
             }
             if want_refs.is_empty() {
                 ok_trivial("git-no-refs")
